@@ -312,3 +312,57 @@ func TestC20Trees(t *testing.T) {
 		}
 	})
 }
+
+// TestC20Wide: directories with hundreds to thousands of entries (a directory
+// listing read in batches, a result list that outgrows its first allocation), with
+// entry counts on both sides of powers of two.
+func TestC20Wide(t *testing.T) {
+	seedNote(t)
+	StartWatchdog("C20", 90*time.Second)
+	st := NewStats("C20", "wide", "exhaustive over (entry count, pattern): one directory d/ and the root each holding N entries (files f0000.., every 10th entry a directory g0000../ with one file) for N in {1, 100, 255..257, 511..513, 1000, 1023..1025, 2048} (thorough: every N in 250..260, 505..520, 1020..1030, 2040..2050, 4095..4097) x 10 patterns with literal, star and mixed file and directory segments; oracle: the reference glob walk; every case non-trivial; distinct by (N, pattern)")
+	st.Exhaustive = true
+	defer st.Write()
+	counts := []int{1, 100, 255, 256, 257, 511, 512, 513, 1000, 1023, 1024, 1025, 2048}
+	if tier() == "thorough" {
+		counts = nil
+		for _, r := range [][2]int{{1, 1}, {100, 100}, {250, 260}, {505, 520}, {1020, 1030}, {2040, 2050}, {4095, 4097}} {
+			for n := r[0]; n <= r[1]; n++ {
+				counts = append(counts, n)
+			}
+		}
+	}
+	patterns := []string{"d/*", "d/f*", "d/*7", "d/f0000", "d*/f0000", "d*/*1*", "f*", "*", "d/g*/*", "g*0/h"}
+	nshards := envInt("VERIF_NSHARDS", 1)
+	shardIdx := envInt("VERIF_SHARD_INDEX", 0)
+	for ci, n := range counts {
+		if ci%nshards != shardIdx {
+			continue
+		}
+		var entries []string
+		for _, dir := range []string{"", "d/"} {
+			for i := 0; i < n; i++ {
+				if i%10 == 9 {
+					entries = append(entries, fmt.Sprintf("%sg%04d/", dir, i), fmt.Sprintf("%sg%04d/h", dir, i))
+				} else {
+					entries = append(entries, fmt.Sprintf("%sf%04d", dir, i))
+				}
+			}
+		}
+		if n == 1 {
+			entries = append(entries, "d/")
+		}
+		root := buildTree(entries)
+		for _, pat := range patterns {
+			for _, abs := range []bool{false, true} {
+				st.Eval()
+				sig, what := checkPatternIn(root, pat, abs)
+				if sig != "" {
+					os.RemoveAll(root)
+					Fail(t, Failure{Property: "C20", Kind: "tree", What: fmt.Sprintf("directories with %d entries: %s", n, clipMsg(what, 400)), Case: TreeCase{Entries: entries, Pattern: pat, Absolute: abs}, Sig: sig})
+				}
+				st.NonTrivial(fmt.Sprint(n, pat, abs), func() any { return map[string]any{"entries_per_directory": n, "pattern": pat, "absolute": abs} })
+			}
+		}
+		os.RemoveAll(root)
+	}
+}
